@@ -151,6 +151,9 @@ def genBound (marker : Nat) : Gen (Option (List BoundArg)) := do
     (1, some [.pred (markerPred marker), .pred (.ty [] (Ty.app "Vec" [tyT]) [.trait false [] (Ty.simple "W1")]), .pred (.lt "'a" ["'static"])]),
     (1, some [.pred (.ty [] (Ty.app "Option" [tyT]) [.trait false [] (Ty.simple "W1")]), .ty tyT, .pred (markerPred marker), .dots]),
     (1, some [.pred (.lt "'a" ["'static"])]),
+    -- an entry that is neither `..`, a predicate nor a type
+    (1, some [.bad ["="]]),
+    (1, some [.ty tyT, .bad ["1"], .dots]),
     (1, some [.pred (.ty ["'x"] (.ref (some "'x") false tyT) [.trait false [] (Ty.simple ("M" ++ toString marker))])])]
 
 def cmpTraits : List String := ["Ord", "PartialOrd", "Eq", "PartialEq", "Hash"]
@@ -164,6 +167,10 @@ def keyPool (w : CmpAttr) : List Toks :=
    ["$"], ["[", "$", ".", "a", ",", "$", ".", "b", "]"], ["{", "let", "x", "=", "&", "$", ";", "x", ".", "k", "(", ")", "}"],
    -- names close to the one the expander substitutes internally for `$` (`__placeholder`): they are the user's
    ["_placeholder", "(", "&", "$", ",", "placeholder", ")"]]
+/-- `key` templates that use `$` where only a name can stand: refused when the attribute is parsed -/
+def badKeyPool : List Toks :=
+  [["$", ".", "$", ".", "len", "(", ")"], ["$", "{", "a", ":", "1", "}"], ["{", "let", "$", "=", "1", ";", "2", "}"],
+   ["x", ".", "$"], ["$", "::", "new", "(", ")"]]
 def byPool (w : CmpAttr) : List Toks :=
   [byExpr w, ["|", "a", ",", "b", "|", "a", ".", "x", "==", "b", ".", "x"], ["f64", "::", "total_cmp"],
    ["m", "::", "by_" ++ w.name, "::", "<", "u8", ">"]]
@@ -367,7 +374,11 @@ def genCmpArgs (cfg : GCfg) (w : CmpAttr) (marker : Nat) (forField : Bool) : Gen
   let key ← if kb < 3 then (do pure (some (← pick (keyPool w)))) else pure none
   let by_ ← if kb == 3 || kb == 4 then (do pure (some (← pick (byPool w)))) else pure none
   let bound ← if ← chance cfg.boundPct 100 then genBound marker else pure none
-  pure { ignore, reverse, by_, key, bound }
+  -- now and then a `key` template that misuses `$`
+  if key.isSome && (← chance 4 100) then
+    pure { ignore, reverse, by_, key := some (← pick badKeyPool), keyBad := true, bound }
+  else
+    pure { ignore, reverse, by_, key, bound }
 
 /-- comparison attributes for one field.  With `validBias` most fields get a
 combination the expander accepts (same key/by on every attribute that needs one). -/
@@ -416,7 +427,10 @@ def defaultExprPool : List (Toks × ExprClass) :=
    (["K", "as", "u8"], .other), (["&", "K"], .other), (["mac", "!", "(", ")"], .other), (["X", "::", "new", "(", ")"], .other),
    (["[", "1", ",", "2", "]"], .other), (["{", "1", "}", "+", "1"], .blockLead), (["{", "K", "}", "as", "u8"], .blockLead),
    (["if", "true", "{", "K", "}", "else", "{", "K", "}", ".", "f", "(", ")"], .blockLead), (["match", "K", "{", "_", "=>", "K", "}", "?"], .blockLead),
-   (["unsafe", "{", "K", "}", "[", "0", "]"], .blockLead), (["{", "K", "}", "(", ")"], .blockLead), (["{", "1", "}", "..", "2"], .blockLead), (["1", "+", "2"], .other), (["E", "::", "A"], .path), (["T", "::", "default", "(", ")"], .other),
+   (["unsafe", "{", "K", "}", "[", "0", "]"], .blockLead),
+   (["{", "K", "}", ".", "f"], .blockLead), (["loop", "{", "}", ".", "await"], .blockLead), (["{", "K", "}", "=", "1"], .blockLead),
+   (["while", "false", "{", "}", ".", "0", ".", "g", "(", ")"], .blockLead), (["for", "_", "in", "K", "{", "}", "as", "u8", "as", "u16"], .blockLead),
+   (["const", "{", "1", "}", "?", "?"], .blockLead), (["{", "K", "}", "(", ")"], .blockLead), (["{", "1", "}", "..", "2"], .blockLead), (["1", "+", "2"], .other), (["E", "::", "A"], .path), (["T", "::", "default", "(", ")"], .other),
    -- paths with generic arguments are paths; a parenthesized literal is not a literal
    (["Vec", "::", "<", "u8", ">", "::", "new"], .path), (["Foo", "::", "<", "{", "1", "}", ">", "::", "K"], .path),
    (["(", "\"s\"", ")"], .other), (["c\"cstr\""], .other), (["1.5e3"], .other), (["\"s\"", ".", "len", "(", ")"], .other)]
@@ -859,6 +873,7 @@ def BoundArg.mapIdent (f : String → String) : BoundArg → BoundArg
   | .ty t => .ty (Ty.mapIdent f t)
   | .pred p => .pred (WPred.mapIdent f p)
   | .dots => .dots
+  | .bad ts => .bad ts
 def mapBound (f : String → String) (b : Option (List BoundArg)) : Option (List BoundArg) := b.map (·.map (BoundArg.mapIdent f))
 def Args.mapIdent (f : String → String) (a : Args) : Args :=
   { a with bound := mapBound f a.bound,
